@@ -20,7 +20,7 @@
    excluded; annotations and voice names hold no quote; setting values and region ids are ASCII without spaces. *)
 From Coq Require Import List ZArith NArith Permutation.
 From Astisub Require Import Kit.Base Kit.Str Kit.Scan Model.Dur Model.Vtt Proofs.VttIOProofs Proofs.VttBase Proofs.VttLine Proofs.VttSimple Proofs.VttDoc Proofs.EolProofs.
-From Astisub Require Import Proofs.VttReadTime Proofs.VttReadLine Proofs.VttReadDoc Proofs.VttReadDec.
+From Astisub Require Import Proofs.VttReadTime Proofs.VttReadLine Proofs.VttReadDoc Proofs.VttReadDec Proofs.VttNeeds Proofs.VttDomain.
 From Coq Require Strings.String.
 Import Strings.String.StringSyntax.
 Delimit Scope string_scope with string.
@@ -73,11 +73,68 @@ Theorem C02_read_regions_defined : forall data d, read_vtt data = Ok d ->
 Proof. exact read_vtt_regions_defined. Qed.
 Print Assumptions C02_read_regions_defined.
 
-(* what the writer writes lies inside the domain on which the markup tokenizer model is declared faithful *)
-Theorem C02_written_line_in_faithful_domain : forall l, repr_vline l = true -> line_html_ok l = true ->
+(* FAITHFUL DOMAIN.  The cue-text parser is modelled over a model of the golang.org/x/net/html tokenizer that is faithful
+   to the real one only on [vtt_line_simple] lines (Kit/Html.v [html_simple], Model/Vtt.v): no raw-text element (script,
+   style, title, textarea, xmp, iframe, noembed, noframes, noscript, plaintext -- after such a start tag the real
+   tokenizer reads up to the matching end tag, for plaintext to the end of the line, as ONE text token), no comment /
+   declaration token, no '&' or CR inside an attribute value, no NUL, every start tag of the plain shape.  A theorem
+   about a line outside that domain would be a statement about the model only, so the representability predicates
+   contain the domain: [rtag_ok] (Proofs/VttLine.v) demands that the element name a tag is written with (name and dotted
+   classes, lower-cased) is not a raw-text element, that its annotation holds no '&' and no CR, and that name, classes
+   and annotation hold no NUL; [run_ok] that the text holds no NUL; [voice_ok] the same of the voice name.  Hence
+   [repr_vline] ALONE -- the hypothesis of C02_line_roundtrip, and through [text_line_ok] of C02_write_read
+   ([repr_vdoc]) and C02_read_rendered ([rendering_okb] / [gcue_ok]) -- puts what the writer writes inside the domain: *)
+Theorem C02_written_line_in_faithful_domain : forall l, repr_vline l = true ->
   vtt_line_simple (removelast (vline_bytes l)) = true.
 Proof. exact written_line_simple. Qed.
 Print Assumptions C02_written_line_in_faithful_domain.
+(* every cue-text line of a representable document (the lines C02_write_read writes and reads back) ... *)
+Theorem C02_written_text_in_faithful_domain : forall d so ro, repr_vdoc d so ro ->
+  Forall (fun it => forallb vtt_line_simple (text_lines (vi_lines it)) = true) (vd_items d).
+Proof. exact repr_vdoc_text_simple. Qed.
+Print Assumptions C02_written_text_in_faithful_domain.
+(* ... and every cue-text line of a rendering accepted by the side condition of C02_read_rendered *)
+Theorem C02_rendered_text_in_faithful_domain : forall h g cues eof, rendering_okb h g cues eof = true ->
+  Forall (fun p => forallb vtt_line_simple (text_lines (gc_lines (snd p))) = true) cues.
+Proof. exact rendered_text_simple. Qed.
+Print Assumptions C02_rendered_text_in_faithful_domain.
+(* the condition is needed (the audit witness): the line with the runs [<title>]x and y is written "<title>x</title>y",
+   which is outside the domain; the strengthened [repr_vline] rejects it.  The same for every raw-text element name in
+   either case; an ordinary name, and a raw-text name that carries a class ("title.k" is another element for the
+   tokenizer), are accepted.  Where model and library really differ (replayed on the library): for <plaintext>x</plaintext>y
+   the library returns ONE run "x</plaintext>y", for <title>x<b>z</b></title>y the runs "x<b>z</b>" and "y"; the model
+   reads the runs x, y resp. x, z, y *)
+Example C02_needs_no_raw_text_tag :
+  repr_vline (ln_raw (b "title")) = false /\
+  removelast (vline_bytes (ln_raw (b "title"))) = b "<title>x</title>y" /\
+  vtt_line_simple (removelast (vline_bytes (ln_raw (b "title")))) = false.
+Proof. exact needs_no_raw_text_tag. Qed.
+Example C02_needs_no_raw_text_tag_all :
+  forallb (fun n => andb (negb (repr_vline (ln_raw n))) (negb (vtt_line_simple (removelast (vline_bytes (ln_raw n)))))) (b "TITLE" :: b "Script" :: Kit.Html.raw_text_tags) = true /\
+  repr_vline (ln_raw (b "b")) = true /\
+  repr_vline (mkVline [mkVrun (b "x") (Some [mkVtag (b "title") [] [b "k"]]) 0%Z None; plain_run (b "y")] []) = true.
+Proof. exact needs_no_raw_text_tag_all. Qed.
+Example C02_needs_no_raw_text_tag_model_reads :
+  repr_vline (ln_raw (b "plaintext")) = false /\
+  removelast (vline_bytes (ln_raw (b "plaintext"))) = b "<plaintext>x</plaintext>y" /\
+  map vr_text (vl_runs (fst (parse_text_vtt (b "<plaintext>x</plaintext>y") []))) = [b "x"; b "y"] /\
+  repr_vline ln_raw_nested = false /\
+  removelast (vline_bytes ln_raw_nested) = b "<title>x<b>z</b></title>y" /\
+  map vr_text (vl_runs (fst (parse_text_vtt (b "<title>x<b>z</b></title>y") []))) = [b "x"; b "z"; b "y"].
+Proof. exact needs_no_raw_text_tag_model_reads. Qed.
+(* likewise '&' inside an attribute value of an annotation / voice name, and a NUL byte *)
+Example C02_needs_annot_no_amp :
+  repr_vline (mkVline [plain_run (b "x")] (b "A=B&C")) = false /\
+  vtt_line_simple (removelast (vline_bytes (mkVline [plain_run (b "x")] (b "A=B&C")))) = false /\
+  repr_vline (mkVline [mkVrun (b "x") (Some [mkVtag (b "lang") (b "k=a&b") []]) 0%Z None] []) = false /\
+  vtt_line_simple (removelast (vline_bytes (mkVline [mkVrun (b "x") (Some [mkVtag (b "lang") (b "k=a&b") []]) 0%Z None] []))) = false.
+Proof. exact needs_annot_no_amp. Qed.
+Example C02_needs_no_nul :
+  repr_vline (mkVline [plain_run [120; 0; 121]%N] []) = false /\
+  vtt_line_simple (removelast (vline_bytes (mkVline [plain_run [120; 0; 121]%N] []))) = false /\
+  repr_vline (mkVline [mkVrun (b "x") (Some [mkVtag [99; 0]%N [] []]) 0%Z None] []) = false /\
+  vtt_line_simple (removelast (vline_bytes (mkVline [mkVrun (b "x") (Some [mkVtag [99; 0]%N [] []]) 0%Z None] []))) = false.
+Proof. exact needs_no_nul. Qed.
 
 (* LF, CR LF and lone CR denote the same document *)
 Theorem C02_eol : forall e (ls : list str), eol_ok e -> Forall brkfree ls ->
